@@ -260,7 +260,8 @@ ADDED = {
            "SDsetdimscale (wrong count) that must change nothing. Vdata/Vgroup attributes with the little-endian variant of a type (a re-set that differs only in byte order is refused, the old value stays); a scale on an unlimited dimension stays what was set while the dataset grows.",
     "C11": "Also in the search: bursts of 14..52 annotations on one object, ANreadann with a buffer shorter than the text, a "
            "second ANcreate before the first annotation is written (refused, leaves no trace), the DFAN calls on a file "
-           "that does not exist yet.",
+           "that does not exist yet. A file made anew under its old name followed by DFANclear, also in plans that use the single-file "
+           "interface for descriptions only.",
     "C12": "Also in the search: a duplicate onto a name that exists (refused, nothing changes), every reference of a tag up "
            "to 8k+7 in use except 8k, and a reference handed out and not used yet (asked for twice in a row, or again "
            "after reference 65535 was taken) is not handed out again. Hdupdd without a source is refused and leaves no descriptor.",
